@@ -170,7 +170,7 @@ func checkC02(c *Ctx) {
 		c.Instance("C02.def", 1)
 		full, exposed := setterVerdict(eff, fn)
 		pk := relPkg(fnPkgPath(fn))
-		inPlace := c02InPlace.MatchString(k)
+		inPlace := c02InPlace.MatchString(k) || continuesInPlace(p, fn)
 		// an unexported method that is not one of the operations of the reference tree is a helper
 		// somebody carved out of one of them: whether it continues an in-place computation is not
 		// documented anywhere, so only its callers are judged
@@ -230,4 +230,21 @@ func hasZCoord(t types.Type) bool {
 		}
 	}
 	return false
+}
+
+// continuesInPlace: a method that is in place by contract although its name is not in the table:
+// its doc comment says that the receiver is an operand ("sets p to p-a", "p = p + a", "p += a",
+// "in place"). (Delegation to an in-place operation is not a criterion: p.Double(q) is
+// p.Set(q).DoubleAssign() and is not in place.)
+func continuesInPlace(p *Program, fn *ssa.Function) bool {
+	if len(fn.Params) == 0 {
+		return false
+	}
+	recv := fn.Params[0]
+	r := regexp.QuoteMeta(recv.Name())
+	if r == "" || r == "_" {
+		return false
+	}
+	doc := funcDoc(p, fn)
+	return regexp.MustCompile(`(?i)\bsets?\s+` + r + `\s+to\s+` + r + `\s*[-+*]|\b` + r + `\s*(\+=|-=|\*=)|\b` + r + `\s*(=|←|<-)\s*` + r + `\s*[-+*]|\bin[- ]place\b`).MatchString(doc)
 }
